@@ -44,7 +44,7 @@ type nodeStats struct {
 	Scenarios                                                                          int
 	C08Compared, C08Resets, TwoRoundScenarios, C08InDealsWindow, ReinitProbes, Reinits int
 	CancelledRounds                                                                    int
-	C08Late, C08StampsMoved                                                            int
+	C08Late, C08StampsMoved, PrefilledResults                                          int
 }
 
 func tsTok(t time.Time) string {
@@ -298,6 +298,8 @@ type nodeRun struct {
 	obs   *bufio.Writer
 	rng   *rand.Rand
 	tier  string
+	// prefillTurn: every other genuine answer is submitted with sender and signature of its messages filled in by somebody else (C15)
+	prefillTurn int
 }
 
 func (r *nodeRun) emit(op, ob string) {
@@ -972,7 +974,7 @@ func (r *nodeRun) reinitObserved(c *cluster, obs *vnode, round string) {
 			}
 			stripped = append(stripped, m)
 		}
-		dump = stripped
+		dump = stripPubPoly(c, stripped)
 	}
 	newKeys := map[string][]byte{}
 	for _, nd := range c.nodes {
